@@ -1026,6 +1026,42 @@ class Executor:
             if not same:
                 raise OutOfSubset("%s: argument %s differs from the default value the contract fixes" % (fi.qual, n))
 
+    MUTATORS = {"append", "extend", "insert", "pop", "remove", "sort", "reverse", "clear", "update", "add", "discard"}
+
+    def mutated_formals(self, fi):
+        """formals of `fi` whose container value is changed IN PLACE by its body (method call or element store), and those rebound"""
+        hit = fi.__dict__.get("_mutated")
+        if hit is None:
+            formals = [a.arg for a in fi.node.args.args]
+            mut, reb = set(), set()
+            for n in ast.walk(fi.node):
+                if isinstance(n, ast.Call) and isinstance(n.func, ast.Attribute) and isinstance(n.func.value, ast.Name) \
+                        and n.func.value.id in formals and n.func.attr in self.MUTATORS:
+                    mut.add(n.func.value.id)
+                if isinstance(n, (ast.Assign, ast.AugAssign, ast.Delete)):
+                    for t in (n.targets if isinstance(n, (ast.Assign, ast.Delete)) else [n.target]):
+                        if isinstance(t, ast.Subscript) and isinstance(t.value, ast.Name) and t.value.id in formals:
+                            mut.add(t.value.id)
+                        if isinstance(t, ast.Name) and t.id in formals:
+                            (mut if isinstance(n, ast.AugAssign) else reb).add(t.id)
+            hit = fi.__dict__["_mutated"] = (mut, reb)
+        return hit
+
+    def aliased_actuals(self, fi, args, node):
+        """{formal name: AST of the actual argument} for the positional arguments of a call (receiver excluded)"""
+        if not isinstance(node, ast.Call) or any(isinstance(a, ast.Starred) for a in node.args):
+            return {}
+        names = [a.arg for a in fi.node.args.args]
+        off = len(args) - len(node.args)
+        out = {}
+        for k, nm in enumerate(names):
+            if 0 <= k - off < len(node.args):
+                out[nm] = node.args[k - off]
+        for kw in node.keywords:
+            if kw.arg:
+                out[kw.arg] = kw.value
+        return out
+
     def call_inline(self, fi, spec, args, kwargs, st, node):
         if self.ctx.depth > 6:
             raise OutOfSubset("inline depth exceeded at %s" % fi.qual)
@@ -1060,6 +1096,27 @@ class Executor:
         st.pc = res.pc
         if "$alloc" in res.vars:
             st.vars["$alloc"] = res.vars["$alloc"]
+        # Python passes containers by reference: a list / dict / set the callee changes in place is changed for the caller too
+        # (containers are values in the encoding, so the final value is written back to the caller's variable)
+        if not self.spec_mode:
+            mut, reb = self.mutated_formals(fi)
+            actuals = self.aliased_actuals(fi, args, node)
+            for nm in sorted(mut):
+                v0 = formals.get(nm)
+                if v0 is None or not isinstance(v0.kind, (KList, KDict, KSet)):
+                    continue
+                if nm in reb:
+                    raise OutOfSubset("%s both rebinds and mutates its container parameter %s" % (fi.qual, nm))
+                a = actuals.get(nm)
+                if a is None or isinstance(a, (ast.List, ast.Dict, ast.Set, ast.ListComp, ast.Constant)):
+                    continue            # a temporary: nobody else sees it
+                if isinstance(a, (ast.Name, ast.Subscript, ast.Attribute)) and nm in res.vars and res.vars[nm] is not POISON:
+                    tgt = ast.parse(ast.unparse(a), mode="eval").body
+                    if isinstance(tgt, ast.Name):
+                        tgt = ast.Name(id=tgt.id, ctx=ast.Store())
+                    self.assign(tgt, res.vars[nm], st, node)
+                else:
+                    raise OutOfSubset("%s mutates its container parameter %s; the argument %s cannot be written back" % (fi.qual, nm, ast.unparse(a)))
         r = res.vars.get("$ret", vnone())
         if r is POISON:
             raise OutOfSubset("inlined %s returns values of incompatible kinds" % fi.qual)
@@ -1067,6 +1124,18 @@ class Executor:
 
     def call_by_contract(self, fi, spec, args, kwargs, st, node):
         self.ctx.called.add(fi.qual)
+        if not spec.trusted and not self.spec_mode and fi.node is not None and hasattr(fi.node, "args"):
+            # a callee that changes a container argument in place cannot be summarised by a value contract when the
+            # caller still holds that container in a variable
+            mut, _ = self.mutated_formals(fi)
+            if mut:
+                actuals = self.aliased_actuals(fi, args, node)
+                for nm in mut:
+                    a = actuals.get(nm)
+                    k = spec.params.get(nm)
+                    if a is not None and k and str(k).startswith(("list", "dict", "set")) and \
+                            not isinstance(a, (ast.List, ast.Dict, ast.Set, ast.ListComp, ast.Constant)):
+                        raise OutOfSubset("%s changes its container parameter %s in place: a call passing a variable is outside the contract model" % (fi.qual, nm))
         if spec.trusted:
             self.ctx.trusted_used.add(fi.qual)
         formals = self.bind_args(fi, args, kwargs, st)
@@ -1251,7 +1320,7 @@ class Executor:
                 cur = None
                 break
             o = self.exec_stmt(s, cur)
-            if self.spec is not None and self.spec.at and self is self.ctx.top_exec and o.normal is not None:
+            if self.spec is not None and self.spec.at and (self is self.ctx.top_exec or self.spec.inline) and o.normal is not None:
                 self.site_hints(s, o.normal)
             out.brk = merge(out.brk, o.brk)
             out.cont = merge(out.cont, o.cont)
@@ -1293,7 +1362,7 @@ class Executor:
                 # they are premises of its obligation and are NOT added to the context of later obligations
                 local = [self.eval_spec(u[4:] if u.startswith("use ") else u, st) for u in h[2]]
                 cl = self.eval_spec(text, st)
-                self.ctx.oblige(st, "have:%s" % name, implies(and_(*local), cl), "hint", getattr(node, "lineno", None))
+                self.ctx.oblige(st, "%shave:%s" % (self.tag, name), implies(and_(*local), cl), "hint", getattr(node, "lineno", None))
                 self.ctx.assume(st, cl)
                 continue
             if isinstance(text, str) and text.startswith("use "):
@@ -1314,7 +1383,7 @@ class Executor:
                 self.assign(tgt, gv, st, node)
                 continue
             cl = self.eval_spec(text, st)
-            self.ctx.oblige(st, "have:%s" % name, cl, "hint", getattr(node, "lineno", None))
+            self.ctx.oblige(st, "%shave:%s" % (self.tag, name), cl, "hint", getattr(node, "lineno", None))
             self.ctx.assume(st, cl)
 
     def exec_stmt(self, node, st):
